@@ -316,8 +316,23 @@ fn const_value<'tcx>(cx: &Cx<'tcx>, ty: Ty<'tcx>, val: ConstValue, v: &mut Vec<(
                 Some(mir::interpret::GlobalAlloc::Function { instance }) => {
                     v.push(("fnptr", J::s(cx.path(instance.def_id()))));
                 }
-                Some(mir::interpret::GlobalAlloc::Memory(_)) => {
+                Some(mir::interpret::GlobalAlloc::Memory(alloc)) => {
                     v.push(("mem", J::Bool(true)));
+                    // byte-string literals: &[u8; N]
+                    if let TyKind::Ref(_, inner, _) = ty.kind() {
+                        if let TyKind::Array(elem, len) = inner.kind() {
+                            if *elem == tcx.types.u8 {
+                                if let Some(n) = len.try_to_target_usize(tcx) {
+                                    let a = alloc.inner();
+                                    let n = n as usize;
+                                    if n <= a.len() && n <= 4096 {
+                                        let bytes = a.inspect_with_uninit_and_ptr_outside_interpreter(0..n);
+                                        v.push(("bytes", J::Arr(bytes.iter().map(|b| J::Int(*b as i128)).collect())));
+                                    }
+                                }
+                            }
+                        }
+                    }
                 }
                 _ => {
                     v.push(("ptr", J::Bool(true)));
